@@ -4,6 +4,7 @@
 import BorshModel.Theorems.C16
 import BorshModel.Lemmas.WireZero
 import BorshModel.Lemmas.SchemaBound
+import BorshModel.Lemmas.SchemaCoherentMain
 import BorshModel.SchemaOf
 namespace Borsh
 
@@ -131,5 +132,32 @@ theorem C14_agreement_builtin (k : SeqK) (t : Ty) (hk : k.serChecksZst = true) (
   cases h2
   obtain ⟨_, _, hb⟩ := adds_all (.seq k t) hg' [] m List.Pairwise.nil h1
   exact (C14_agreement_seq ⟨declOf (.seq k t), m⟩ k t hk hkb hs hm hw (hb _) rfl [] false []).2.2
+
+/-- the same, end to end, for **every name-coherent element type** — derived unit structs, structs of
+`PhantomData` and zero-length arrays, enums … included: the container `for_type::<Vec<T>>()` generates
+gets the zero-sized-sequence verdict exactly where the run time refuses the collection -/
+theorem C14_agreement_coherent (k : SeqK) (t : Ty) (hk : k.serChecksZst = true) (hkb : k ≠ .bytesMut)
+    (hco : coherentB (.seq k t) = true) (hs : shapeOk t = true) (hm : memZero t = true)
+    (hw : wireZero t = true) (c : Container) (hc : schemaOf (.seq k t) = .ok c) :
+    c.validate = .error (.zstSequence c.decl) := by
+  obtain ⟨hb, hd⟩ := schemaOf_bnd (.seq k t) c (coherentB_sound _ hco) hc
+  exact (C14_agreement_seq c k t hk hkb hs hm hw hb hd [] false []).2.2
+
+theorem C14_agreement_coherent_set (k : SetK) (t : Ty)
+    (hco : coherentB (.set k t) = true) (hs : shapeOk t = true) (hm : memZero t = true)
+    (hw : wireZero t = true) (c : Container) (hc : schemaOf (.set k t) = .ok c) :
+    c.validate = .error (.zstSequence c.decl) := by
+  obtain ⟨hb, hd⟩ := schemaOf_bnd (.set k t) c (coherentB_sound _ hco) hc
+  exact (C14_agreement_set c k t hs hm hw hb hd [] false []).2.2
+
+/-- non-vacuity: `Vec<Unit>` for a derived unit struct and `BTreeSet<(Marker, [u8; 0])>` -/
+example :
+    let u := Ty.prod (.struct [85] false) []
+    let m := Ty.prod (.struct [77] false) [(some [112], false, .prod .phantom [])]
+    let e := Ty.tuple [m, .array 0 (.int .u8)]
+    (coherentB (.seq .vec u) && shapeOk u && memZero u && wireZero u &&
+     coherentB (.set .btreeSet e) && shapeOk e && memZero e && wireZero e &&
+     (match schemaOf (.seq .vec u) with | .ok c => c.validate == .error (.zstSequence c.decl) | _ => false)) = true := by
+  decide +kernel
 
 end Borsh
